@@ -122,4 +122,22 @@ PROPS = {
             rap("noshift", "^TestC14NoShift$", 6000, 50000, 2, 16),
         ],
     },
+    "C13": {
+        "level": "exploration",
+        "level_text": "generated search over table contents of the six table types against an independent ISO 13818-1 / EN 300 468 section "
+                      "encoder: through the Demuxer for the delivered structures (any packetisation, multi-section units), through the "
+                      "parsePSIData hook for the generic header fields, and byte-for-byte for the PAT/PMT writer",
+        "level_note": "trusts harness/ref/psi.go and ref/desc.go; PAT/PMT units obey the stated stream precondition (every section of a unit starts "
+                      "in the unit's first packet); the undefined (all-ones) start time is not generated",
+        "technique": "rapid property tests: differential against an independent section encoder (decode) and byte-exact comparison (encode)",
+        "rule": "rapid-generated table models; non-trivial = a loop with >= 2 items or >= 2 sections (demux), non-zero version/section numbers (header), "
+                ">= 2 items or a descriptor (write); distinct by unit/section bytes",
+        "assumptions": ["verif-tagged wrappers VerifParsePSIData / VerifWritePSIData call the private functions unchanged",
+                        "PSISectionHeader.SectionLength is set by the caller of writePSIData as the Muxer does"],
+        "units": [
+            rap("demux", "^TestC13Demux$", 6000, 60000, 4, 16),
+            rap("header", "^TestC13Header$", 4000, 40000, 2, 16),
+            rap("write", "^TestC13Write$", 4000, 40000, 2, 16),
+        ],
+    },
 }
